@@ -534,6 +534,17 @@ func (d *Docs) Mutate(v *model.Val) (*model.Val, string) {
 				}
 				fallthrough
 			case 1:
+				if len(d.S.Types) > 0 && r.Chance(1, 3) {
+					// a key spelled exactly like the name of a user type (key shortcuts are names
+					// of types in the SCHEMA; in a document "@code" is a key like any other)
+					t := d.S.Types[r.Intn(len(d.S.Types))]
+					val := RandomScalar(r)
+					if t.Root != nil && r.Bool() {
+						val = d.conform(t.Root, 3)
+					}
+					x.Members = append(x.Members, model.M(t.Name, val))
+					return c, "key spelled like a type name added"
+				}
 				x.Members = append(x.Members, model.M("unknown_"+RandomKey(r), RandomScalar(r)))
 				return c, "unknown key added"
 			case 2:
